@@ -243,7 +243,7 @@ theorem no_meta_survives (u : Nat) (t : String) (a : Attrs) (cs : List Node) (v 
 /-- after `remove_nonsvg_content` every element that is left, at any depth, is in the svg (or xlink) namespace -/
 theorem no_foreign_survives (ng : Bool) (n : Node) (v : Nat) (t' : String) (a' : Attrs) (k : List Node)
     (hm : Node.elem v t' a' k ∈ Node.flatList (Node.rewrite (Cleanup.nonSvgPass ng).f n)) :
-    Cleanup.goodNs ng t' = true := CleanP.no_foreign_left ng n v t' a' k hm
+    Cleanup.goodElemNs t' = true := CleanP.no_foreign_left ng n v t' a' k hm
 
 
 /-! #### tie to the source -/
